@@ -661,6 +661,15 @@ class TerminalExpr(CalculusFunction):
                     newcoords = [Symbol(c.name+"_plus", real=True) for c in coordinates]
                     subs      = list(zip(coordinates, newcoords))
                     J = J.subs(subs)
+                elif mapping.is_plus:
+                    # symbolic mapping: the components of the plus copy (as for the inverse Jacobian)
+                    Ms = list(J.atoms(type(mapping)))
+                    if Ms:
+                        M = Ms[0]
+                        coordinates = [M[i] for i in range(mapping.pdim)]
+                        newcoords   = [mapping[i] for i in range(mapping.pdim)]
+                        subs = list(zip(coordinates, newcoords))
+                        J = J.subs(subs)
 
             return J
 
